@@ -21,6 +21,15 @@ fn main() {
     // panics inside catch_unwind are expected observations; keep stderr quiet
     std::panic::set_hook(Box::new(|_| {}));
     let args: Vec<String> = std::env::args().collect();
+    if args.len() >= 3 && args[1] == "data" {
+        // replay an explicit single-pass case: avgh data <Type> <hex words...>  (pairs for the pair estimators)
+        let mut out = Out::new("DATA", None);
+        let mut rng = Rng::new(1);
+        let vals: Vec<f64> = args[3..].iter().map(|w| f64::from_bits(u64::from_str_radix(w, 16).expect("hex word"))).collect();
+        if !props_struct::replay_data(&mut out, &mut rng, &args[2], &vals) { eprintln!("unknown type {}", args[2]); std::process::exit(2); }
+        out.finish();
+        return;
+    }
     if args.len() < 5 || args[1] != "gen" {
         eprintln!("usage: avgh gen <property> <quick|thorough> <seed> [--only <case>]");
         std::process::exit(2);
